@@ -131,6 +131,11 @@ def run(ck):
                if any(n.startswith(("main", "inner")) for n, _e in (r.get("thread_excs") or ()))]
     if crashed:
         ck.machinery_errors.append("harness threads crashed in %d executions, e.g. %s" % (len(crashed), crashed[:2]))
+    cut = [(t["params"], r["outcome"], r["steps"]) for (t, r), _v in list(pairs) + list(pairs2)
+           if r.get("outcome") != "finished"]
+    if cut:
+        ck.machinery_errors.append("%d executions did not run to their End event, e.g. %s" % (len(cut), cut[:2]))
+    ck.notes["max_steps_of_one_execution"] = max([r["steps"] for (t, r), _v in list(pairs) + list(pairs2)] or [0])
     ck.notes["rule"] = ("one evaluation = one generated program (chain, bind position, callable kind, bind/flat_bind, "
                         "names, submissions) executed on the real library in all of its forms under the controlled "
                         "scheduler and validated by TLC against BindObs; distinct = distinct (program, projected "
